@@ -43,6 +43,27 @@ def aut_from_json(j):
 def build_aut(inp):
     """the automaton of an input: built from the label view, then edited by the input's history (if any)"""
     A = aut_from_json(inp["aut"])
+    if inp.get("shared"):
+        # two automata built from ONE dictionary: the edit history is applied to the sibling (or by the caller to
+        # the dictionary itself); the automaton that is enumerated must not notice
+        g = {v: {lab: w for lab, w in es} for v, es in inp["aut"]["graph"]}
+        A = FSA.FSA(g, start_vertices=list(inp["aut"]["starts"]))
+        S = FSA.FSA(g, start_vertices=list(inp["aut"]["starts"]))
+        for e in inp.get("edits", []):
+            if inp["shared"] == "caller":
+                if e[0] == "add":
+                    g.setdefault(e[1], {})[e[3]] = e[2]
+                elif e[0] == "del":
+                    g.pop(e[1], None)
+            elif e[0] == "add":
+                S.add_edges([(e[1], e[2], e[3])])
+            elif e[0] == "del" and e[1] in S.vertices():
+                S.delete_vertex(e[1])
+            elif e[0] == "rec":
+                S.recurrent(inplace=True)
+            elif e[0] == "ren":
+                S.rename_generators(_full_map(S, e[1]), inplace=True)
+        return A
     for e in inp.get("edits", []):
         if e[0] == "add":
             A.add_edges([(e[1], e[2], e[3])])
@@ -71,7 +92,7 @@ def edited_graph(inp):
     for es in list(g.values()):
         for w in es.values():
             g.setdefault(w, {})
-    for e in inp.get("edits", []):
+    for e in ([] if inp.get("shared") else inp.get("edits", [])):      # shared source: the edits happen elsewhere
         if e[0] == "add":
             g.setdefault(e[1], {})
             g.setdefault(e[2], {})
@@ -388,6 +409,10 @@ def gen_acc(rng, n):
             edits.pop()          # an edit history must not delete a start vertex (recurrent() can)
         spec = rep_spec_for(rng, {"graph": j["graph"] + [[0, [[e[3], 0]]] for e in edits if e[0] == "add"], "starts": j["starts"]},
                             drop=rng.random() < 0.05)      # (renamings permute / case-swap labels: same letters)
+        if edits and all(e[0] in ("add", "del", "rec") for e in edits) and rng.random() < 0.5:
+            yield {"aut": j, "edits": edits, "spec": spec,
+                   "calls": rand_calls(rng, j), "shared": rng.choice(["sibling", "sibling", "caller"])}
+            continue
         if edits:
             calls = rand_calls(rng, j)
             mk = max([e[1] for e in edits if e[0] == "mult"] + [1])
